@@ -317,3 +317,165 @@ def run_c20_claim_unclaim(ctx: common.Ctx):
                                             {'text': text, 'path': p, 'side': side})
                     break
             ctx.case({'layout': text, 'side': side, 'claimed': done}, nontrivial=done)
+
+
+# ---- C15 -------------------------------------------------------------------------------------------
+def _arg(r, cls_name: str, pname: str, full: bool):
+    """An in-domain argument for a from_value parameter, by parameter name."""
+    import datetime
+    from decimal import Decimal as D
+    from autobean_refactor import models
+    E = edits
+    strings = ['plain', '', 'q"uote', 'back\\slash', 'two\nlines', 'ünï']
+    if pname == 'date':
+        return r.choice([E.s_date(r), datetime.date(999, 1, 2)])
+    if pname in ('account', 'source_account'):
+        return E.s_account(r)
+    if pname == 'currency':
+        if cls_name in ('Posting', 'UnitPrice', 'TotalPrice', 'CostSpec'):
+            return r.choice([None, E.s_currency(r)])
+        return E.s_currency(r)
+    if pname == 'currencies':
+        return [E.s_currency(r) for _ in range(r.choice([0, 1, 3]))]
+    if pname in ('booking', 'config'):
+        return r.choice([None, 'STRICT', 'a "b"'])
+    if pname in ('number', 'number_per', 'number_total'):
+        if cls_name in ('Posting', 'UnitPrice', 'TotalPrice', 'CostSpec', 'CompoundAmount'):
+            return r.choice([None, D('1'), D('-2.50'), D('1000.25')])
+        return r.choice([D('0'), D('12.5'), D('-3'), D('1000000')])
+    if pname == 'tolerance':
+        return r.choice([None, D('0.01')])
+    if pname in ('leading_comment', 'trailing_comment'):
+        return r.choice([None, None, 'c', 'two\nlines', ''])
+    if pname == 'inline_comment':
+        return r.choice([None, None, 'ic', ''])
+    if pname == 'meta':
+        return r.choice([None, {}, {'kk': 'v'}, {'aa': D('1'), 'bb': None, 'cc': datetime.date(2020, 1, 2), 'dd': True,
+                                                 'ee': 'two\nlines'}])
+    if pname in ('tags',):
+        return [E.s_tag(r) for _ in range(r.choice([0, 1, 2]))]
+    if pname in ('links',):
+        return [E.s_link(r) for _ in range(r.choice([0, 1, 2]))]
+    if pname in ('payee', 'narration'):
+        return r.choice([None, r.choice(strings)])
+    if pname == 'postings':
+        return [E.make_posting(r) for _ in range(r.choice([0, 1, 3]))]
+    if pname == 'flag':
+        return r.choice(['*', '!']) if cls_name == 'Transaction' else r.choice([None, '!', '*'])
+    if pname in ('type', 'description', 'name', 'query_string', 'filename', 'comment', 'label'):
+        if pname == 'label' and cls_name == 'CostSpec':
+            return r.choice([None, 'lbl'])
+        return r.choice(strings)
+    if pname == 'key':
+        return r.choice(strings) if cls_name == 'Option' else E.s_key(r)
+    if pname == 'value':
+        if cls_name == 'Option':
+            return r.choice(strings)
+        if cls_name == 'NumberExpr':
+            return r.choice([D('1'), D('-7.5'), D('0')])
+        return E.s_meta_value(r)
+    if pname == 'tag':
+        return E.s_tag(r)
+    if pname == 'indent_by':
+        return r.choice(['    ', '  ', '\t'])
+    if pname == 'indent':
+        return r.choice(['    ', '  ', '\t'])
+    if pname == 'values':
+        pool = [lambda: 's', lambda: datetime.date(2020, 1, 2), lambda: True, lambda: D('1'), lambda: D('-2'),
+                lambda: D('3'), lambda: models.Amount.from_value(D('-4'), 'USD'),
+                lambda: models.Account.from_value('Assets:X'), lambda: D('-5')]
+        return [r.choice(pool)() for _ in range(r.choice([0, 1, 2, 4]))]
+    if pname == 'amount':
+        return models.Amount.from_value(r.choice([D('1'), D('-2.5')]), E.s_currency(r))
+    if pname == 'cost':
+        return r.choice([None, models.CostSpec.from_value(D('2'), None, 'USD'),
+                         models.CostSpec.from_value(None, D('5'), 'EUR', date=datetime.date(2020, 1, 1), label='l', merge=True),
+                         models.CostSpec.from_value(None, None, None)])
+    if pname == 'price':
+        return r.choice([None, models.UnitPrice.from_value(D('1.5'), 'USD'), models.TotalPrice.from_value(None, 'EUR'),
+                         models.UnitPrice.from_value(None, None)])
+    if pname == 'merge':
+        return r.choice([False, True])
+    if pname == 'directives':
+        return [E.make_directive(r) for _ in range(r.choice([0, 1, 3]))]
+    raise KeyError(pname)
+
+
+def run_c15(ctx: common.Ctx):
+    import inspect
+    from autobean_refactor import models
+    from autobean_refactor.models import base
+    classes = []
+    for name in sorted(dir(models)):
+        c = getattr(models, name)
+        if isinstance(c, type) and issubclass(c, base.RawTreeModel) and hasattr(c, 'from_value'):
+            classes.append(c)
+    p = gen_docs._PARSER if hasattr(gen_docs, '_PARSER') else None
+    from autobean_refactor import parser as parser_lib
+    parser = parser_lib.Parser()
+    n_per_class = ctx.scale(12, 150)
+    for cls in classes:
+        sig = inspect.signature(cls.from_value)
+        for k in range(n_per_class):
+            seed = ctx.rng.randrange(1 << 30)
+            r = random.Random(seed)
+            kwargs = {}
+            try:
+                for prm in sig.parameters.values():
+                    optional = prm.default is not inspect._empty
+                    if optional and r.random() < 0.4:
+                        continue
+                    kwargs[prm.name] = _arg(r, cls.__name__, prm.name, True)
+            except KeyError as e:
+                ctx.fail('tie', 'c15-unknown-parameter', f'{cls.__name__}.from_value has a parameter the harness does not know: {e}')
+                break
+            w = {'class': cls.__name__, 'arg_seed': seed, 'args': {a: repr(b)[:80] for a, b in kwargs.items()}}
+            try:
+                m = cls.from_value(**kwargs)
+            except ValueError as e:
+                # documented rejections (e.g. CostSpec per+total without …) are not this property's concern
+                ctx.dist('ctor_refused=' + cls.__name__)
+                continue
+            ctx.dist('class=' + cls.__name__)
+            ctx.case({'class': cls.__name__, 'args': sorted(kwargs)}, nontrivial=len(kwargs) > 1)
+            probs = treewalk.wf_problems(m, expect_whole_store=True)
+            if probs:
+                ctx.monitor_failure('C15:constructed-not-wf', f'{cls.__name__}.from_value(...) is not well-formed: {probs[0]}', w)
+                continue
+            text = treewalk.text_of(m)
+            try:
+                g = parser.parse(text, cls)
+            except Exception as e:
+                ctx.monitor_failure('C15:constructed-text-rejected', f'{cls.__name__}.from_value(...) prints {text!r} which parse() rejects ({type(e).__name__})', dict(w, printed=text))
+                continue
+            d = diff(treewalk.content(m), treewalk.content(g))
+            if d:
+                sig_ = 'C15:custom-values-adjacent-numbers' if ('._values' in d and cls.__name__ == 'Custom') else 'C15:reparse-content-differs'
+                ctx.monitor_failure(sig_, f'{cls.__name__}.from_value(...) prints {text!r}; re-parsed content differs at {d}', dict(w, printed=text))
+            # assembled into a file
+            if isinstance(m, tuple(type(x) for x in [m]) ) and cls.__name__ not in ('File',) and hasattr(models.File, 'from_value'):
+                pass
+    # directives assembled into a file
+    for k in range(ctx.scale(20, 200)):
+        seed = ctx.rng.randrange(1 << 30)
+        r = random.Random(seed)
+        ds = [edits.make_directive(r) for _ in range(r.choice([1, 2, 4]))]
+        try:
+            f = models.File.from_value(ds)
+        except Exception as e:
+            ctx.monitor_failure('C15:file-ctor-raised', f'File.from_value raised {type(e).__name__}: {e}', {'arg_seed': seed})
+            continue
+        probs = treewalk.wf_problems(f, expect_whole_store=True)
+        text = treewalk.text_of(f)
+        w = {'arg_seed': seed, 'printed': text}
+        if probs:
+            ctx.monitor_failure('C15:constructed-not-wf', f'File.from_value(...) is not well-formed: {probs[0]}', w)
+            continue
+        g = gen_docs.parse_ok(text, True)
+        if g is None:
+            ctx.monitor_failure('C15:constructed-text-rejected', f'File.from_value(...) prints text that parse() rejects', w)
+            continue
+        d = diff(treewalk.content(f), treewalk.content(g))
+        if d:
+            ctx.monitor_failure('C15:reparse-content-differs', f'File.from_value(...): re-parsed content differs at {d}', w)
+        ctx.case({'class': 'File', 'n': len(ds)}, nontrivial=True)
